@@ -89,6 +89,11 @@ def Obj.put (o : Obj) (f : Fld) (v : Option Nat) : Obj :=
   | .a => { o with a := v }
   | .b => { o with b := v }
 
+def idStr (h : Heap) (x : Nat) : String :=
+  match h[x]? with
+  | some o => toString o.id
+  | none => "?"
+
 def prim (s : St) : Prim → St
   | .new d id => setSlot { s with heap := s.heap ++ [{ id := id }] } d (some s.heap.length)
   | .set f d src =>
@@ -109,7 +114,7 @@ def prim (s : St) : Prim → St
   | .clr d => setSlot s d none
   | .show d =>
     match getSlot s d with
-    | some x => { s with out := s.out ++ [match s.heap[x]? with | some o => toString o.id | none => "?"] }
+    | some x => { s with out := s.out ++ [idStr s.heap x] }
     | none => { s with out := s.out ++ ["null"] }
   | .showA d =>
     match getSlot s d with
@@ -117,13 +122,13 @@ def prim (s : St) : Prim → St
       match s.heap[x]? with
       | some o =>
         match o.a with
-        | some y => { s with out := s.out ++ [match s.heap[y]? with | some o2 => toString o2.id | none => "?"] }
+        | some y => { s with out := s.out ++ [idStr s.heap y] }
         | none => { s with out := s.out ++ ["a-null"] }
       | none => { s with out := s.out ++ ["?"] }
     | none => { s with out := s.out ++ ["null"] }
   | .showNN d =>
     match getSlot s d with
-    | some x => { s with out := s.out ++ [match s.heap[x]? with | some o => toString o.id | none => "?"] }
+    | some x => { s with out := s.out ++ [idStr s.heap x] }
     | none => s
 
 /-- the collector may run before every primitive step; `k` numbers the boundaries -/
